@@ -22,13 +22,25 @@ def tlsconn_line(rng):
                                 "dns:" + hx(src.encode())]))
     cert.append("san=" + (",".join(sans) if sans else rng.choice(["none", "."])))
     blocks = []
+    # TLS-PSK: in a third of the cases some blocks hold a PSK identity and key, and in half of those the peer offers one (and has no
+    # certificate): what psk_find_session_cb may choose from are the blocks listing the source, of the first one's TLS context
+    pskmode = rng.random() < 0.33
+    ids, keys = [b"alice", b"bob", b"alice2"], [b"0123456789abcdef", b"fedcba9876543210", b"0123456789abcdef0123456789abcdef"]
     for i in range(rng.randrange(1, 5)):
         hs = rng.sample(HOSTS, rng.choice([1, 1, 2]))
         toks = ["name=B%d" % i, "tls=%d" % rng.choice([0, 0, 0, 1]), "hosts=" + ",".join("%s/%d" % (hx(h.encode()), p) for h, p in hs),
                 "namecheck=%d" % rng.choice([1, 1, 0]), "cncheck=%d" % rng.choice([0, 0, 1])]
         if rng.random() < 0.35:
             toks.append("terms=" + ";".join(hx(t) for t in rng.sample(TERMS, rng.choice([1, 1, 2]))))
+        if pskmode and rng.random() < 0.6:
+            toks.append("psk=%s:%s" % (hx(rng.choice(ids)), hx(rng.choice(keys[:2] if rng.random() < 0.8 else keys))))
         blocks.append(" ".join(toks))
+    if pskmode and rng.random() < 0.5:
+        held = [t for b in blocks for t in b.split() if t.startswith("psk=")]
+        if held and rng.random() < 0.6:
+            cert.append(rng.choice(held))         # identity and key of one of the blocks (which may or may not list the source)
+        else:
+            cert.append("psk=%s:%s" % (hx(rng.choice(ids)), hx(rng.choice(keys[:2] if rng.random() < 0.8 else keys))))
     return "tlsconn %s %s | %s" % (src, " ".join(cert), " | ".join(blocks))
 
 
